@@ -1,12 +1,290 @@
 package rules
 
 import (
+	"fmt"
+	"go/ast"
+	"go/types"
+	"sort"
+	"strings"
+
 	"verif/checker/core"
 )
 
 func init() { Registry["C04"] = checkC04 }
 
+// dispatchRow is one row of a reflect-kind dispatch table: outer kind, discriminator, chosen function.
+type dispatchRow struct {
+	Outer string // reflect kind name
+	Sub   string // "" | "type:TypeUID" | "elem:Uint16" | "default"
+	Fn    *types.Func
+	Pos   ast.Node
+}
+
+func (d dispatchRow) Key() string {
+	if d.Sub == "" {
+		return d.Outer
+	}
+	return d.Outer + "/" + d.Sub
+}
+
+// extractKindDispatch reads `switch t.Kind() { case …: return f; case reflect.Slice: switch t.Elem().Kind() {…} … }`.
+func extractKindDispatch(f *fn) []dispatchRow {
+	info := f.Pkg.TypesInfo
+	var rows []dispatchRow
+	retFn := func(st ast.Stmt) *types.Func {
+		ret, ok := st.(*ast.ReturnStmt)
+		if !ok || len(ret.Results) != 1 {
+			return nil
+		}
+		e := stripParens(ret.Results[0])
+		if call, ok := e.(*ast.CallExpr); ok {
+			return callee(info, call)
+		}
+		if o, ok := objOf(info, e).(*types.Func); ok {
+			return o
+		}
+		return nil
+	}
+	var outerSw *ast.SwitchStmt
+	for _, st := range f.Decl.Body.List {
+		if s, ok := st.(*ast.SwitchStmt); ok && s.Tag != nil && strings.HasSuffix(exprStr(s.Tag), ".Kind()") {
+			outerSw = s
+		}
+	}
+	if outerSw == nil {
+		return nil
+	}
+	for _, c := range switchTable(info, outerSw) {
+		if c.Default {
+			continue
+		}
+		var kinds []string
+		for _, e := range c.Exprs {
+			if o := objOf(info, e); o != nil {
+				kinds = append(kinds, o.Name())
+			}
+		}
+		for _, k := range kinds {
+			for _, st := range c.Body {
+				switch s := st.(type) {
+				case *ast.ReturnStmt:
+					if fnc := retFn(s); fnc != nil {
+						rows = append(rows, dispatchRow{k, "", fnc, s})
+					}
+				case *ast.SwitchStmt:
+					if s.Tag == nil {
+						continue
+					}
+					prefix := "type:"
+					if strings.HasSuffix(exprStr(s.Tag), ".Elem().Kind()") {
+						prefix = "elem:"
+					}
+					for _, cc := range switchTable(info, s) {
+						var fnc *types.Func
+						for _, b := range cc.Body {
+							if x := retFn(b); x != nil {
+								fnc = x
+							}
+						}
+						if fnc == nil {
+							continue
+						}
+						if cc.Default {
+							rows = append(rows, dispatchRow{k, "default", fnc, cc.Clause})
+							continue
+						}
+						for _, e := range cc.Exprs {
+							if o := objOf(info, e); o != nil {
+								rows = append(rows, dispatchRow{k, prefix + o.Name(), fnc, cc.Clause})
+							}
+						}
+					}
+				}
+			}
+		}
+	}
+	return rows
+}
+
+// emitsTypedArray: the function (an iterator) raises OnArray with a constant array type; returns the constant names.
+func emitsTypedArray(p *core.Program, f *types.Func) []string {
+	d := p.FuncDecl(f)
+	pkg := p.Pkgs[core.Rel(f.Pkg())]
+	if d == nil || pkg == nil {
+		return nil
+	}
+	seen := map[string]bool{}
+	inspectCalls(pkg.TypesInfo, d.Body, func(call *ast.CallExpr, c *types.Func) {
+		if c != nil && core.InModule(c) && c.Pkg() == f.Pkg() && c != f && strings.HasPrefix(c.Name(), "iterate") {
+			// platform-dependent iterators delegate to the fixed-width one
+			for _, at := range emitsTypedArray(p, c) {
+				seen[at] = true
+			}
+		}
+		if c == nil || c.Name() != "OnArray" || len(call.Args) != 3 {
+			return
+		}
+		if o := objOf(pkg.TypesInfo, call.Args[0]); o != nil && strings.HasPrefix(o.Name(), "ArrayType") {
+			seen[o.Name()] = true
+		}
+	})
+	return sortedKeys(seen)
+}
+
 func checkC04(r *core.Run, p *core.Program) {
 	r.Rule("C04.units", "chunk lengths (element counts) and delivered data lengths (byte counts) are never added, subtracted or compared without conversion by the element width, in the builder, the validator, the CBE codec and the CTE array engine (8-bit string contexts exempt).")
 	checkUnits(r, p, "C04.units", "builder", "rules", "cbe", "cte")
+
+	r.Rule("C04.kind-dispatch", "the marshaling side's and the unmarshaling side's reflect-kind dispatch tables agree: every (container kind, element kind) row for which the iterator emits a typed array has a row of its own on the builder side (otherwise the typed array event lands in the generic slice/array builder, which treats it as one element), and every special type (UID, time, compact time, URL, big numbers, media, node, edge) handled on one side is handled on the other.")
+	r.Rule("C04.retained-bytes", "a builder that keeps a byte slice handed in by an event copies it first (the decoders reuse their buffers), and a slice field that was stored away is not truncated and refilled.")
+	r.Rule("C04.index-path", "recursive struct walkers on both sides store a fresh copy of the field index path (no append onto the recursion's path parameter).")
+	r.Rule("C04.edge-end", "a builder that stacks itself when a container begins leaves the stack at the container's end event (or when its child completes), never from a value event (shared with C06).")
+	r.Rule("C04.wrapper-shape", "a wrapper builder hands the same destination (its element / pointee / next value) to the delegate in every BuildFrom* method: a method that passes the incoming destination where its siblings pass the wrapper's own element stores the value in the wrong place.")
+	r.Rule("C04.tables", "the CBE code/width/array/chunk-header/time tables and the CTE token/escape/array-format agreements that a marshal-unmarshal round trip rests on (C01.*, C02.tokens, C02.escapes, C22.float-order).")
+	r.NotDecide("equality of the resulting Go value; reflect.StructOf type spaces; long-array contents")
+
+	// ---- kind dispatch --------------------------------------------------------------------------------------
+	itf := findFn(p, "iterator", "Session.getDefaultIteratorForType")
+	blf := findFn(p, "builder", "Session.defaultBuilderGeneratorForType")
+	if itf == nil || blf == nil {
+		r.Undecided("C04.kind-dispatch", "iterator.Session.getDefaultIteratorForType / builder.Session.defaultBuilderGeneratorForType")
+	} else {
+		irows, brows := extractKindDispatch(itf), extractKindDispatch(blf)
+		r.Floor("C04.kind-dispatch", "iterator dispatch rows", len(irows), 60)
+		r.Floor("C04.kind-dispatch", "builder dispatch rows", len(brows), 55)
+		bmap := map[string]dispatchRow{}
+		for _, b := range brows {
+			bmap[b.Key()] = b
+		}
+		imap := map[string]dispatchRow{}
+		for _, i := range irows {
+			imap[i.Key()] = i
+		}
+		for _, row := range irows {
+			switch {
+			case strings.HasPrefix(row.Sub, "elem:"):
+				ats := emitsTypedArray(p, row.Fn)
+				if len(ats) == 0 {
+					continue
+				}
+				_, ok := bmap[row.Key()]
+				r.Check("C04.kind-dispatch", row.Key()+"|typed array row on the builder side", row.Pos.Pos(), ok,
+					fmt.Sprintf("%s values are marshaled as a typed array (%s by %s) but the builder has no row for this element kind: the array event reaches the generic %s builder, which treats it as a single element, so the value cannot be unmarshaled into the type it was marshaled from", strings.ToLower(row.Outer)+" of "+strings.TrimPrefix(row.Sub, "elem:"), strings.Join(ats, "/"), row.Fn.Name(), strings.ToLower(row.Outer)))
+			case strings.HasPrefix(row.Sub, "type:"):
+				_, ok := bmap[row.Key()]
+				if !ok && row.Outer == "Ptr" {
+					// pointer special cases fall back to the generic pointer builder wrapping the element's builder
+					_, ok = bmap["Struct/type:"+strings.Replace(strings.TrimPrefix(row.Sub, "type:"), "TypeP", "Type", 1)]
+				}
+				r.Check("C04.kind-dispatch", row.Key()+"|special type handled on the builder side", row.Pos.Pos(), ok,
+					fmt.Sprintf("the special type %s is marshaled by %s but the builder's dispatch has no row for it", strings.TrimPrefix(row.Sub, "type:"), row.Fn.Name()))
+			case row.Sub == "" || row.Sub == "default":
+				_, ok := bmap[row.Key()]
+				r.Check("C04.kind-dispatch", row.Key()+"|kind handled on the builder side", row.Pos.Pos(), ok, "the builder's dispatch has no row for kind "+row.Key())
+			}
+		}
+		for _, row := range brows {
+			if strings.HasPrefix(row.Sub, "type:") {
+				_, ok := imap[row.Key()]
+				r.Check("C04.kind-dispatch", row.Key()+"|special type handled on the iterator side", row.Pos.Pos(), ok,
+					fmt.Sprintf("the special type %s has a builder (%s) but the iterator's dispatch has no row for it: it would be marshaled as a generic struct/pointer", strings.TrimPrefix(row.Sub, "type:"), row.Fn.Name()))
+			}
+		}
+	}
+
+	// ---- retained bytes / index path ------------------------------------------------------------------------
+	n := checkRetainedBytes(r, p, "C04.retained-bytes", nil)
+	r.Floor("C04.retained-bytes", "event-facing byte-slice parameters in package builder", n, 40)
+	checkStoreThenReuse(r, p, "C04.retained-bytes", "builder")
+	checkIndexPath(r, p, "C04.index-path")
+
+	// ---- wrapper shape -----------------------------------------------------------------------------------------
+	c04WrapperShape(r, p)
+
+	// ---- shared: edge end (C06) and tables -------------------------------------------------------------------
+	sub := core.NewRun("C04", r.Tier, r.Seed, r.VerifDir)
+	sub.Prog = p
+	checkC06(sub, p)
+	checkC01(sub, p)
+	checkC02(sub, p)
+	checkC22(sub, p)
+	nt := 0
+	for _, o := range sub.Obls {
+		switch o.Rule {
+		case "C06.edge-end":
+			r.CheckAt("C04.edge-end", o.Construct, o.Pos, o.OK, o.Detail)
+		case "C01.codes", "C01.widths", "C01.array-tables", "C01.chunk-header", "C01.time-table", "C02.tokens", "C02.escapes", "C22.float-order":
+			nt++
+			r.CheckAt("C04.tables", o.Rule+"|"+o.Construct, o.Pos, o.OK, o.Detail)
+		}
+	}
+	r.Floor("C04.tables", "shared table obligations", nt, 150)
+}
+
+// c04WrapperShape: in each wrapper builder type, the destination argument handed to the delegate has the same shape in
+// every BuildFrom* method.
+func c04WrapperShape(r *core.Run, p *core.Program) {
+	pkg := p.Pkg("builder")
+	info := pkg.TypesInfo
+	type obs struct {
+		method string
+		shape  string
+		pos    ast.Node
+	}
+	byType := map[string][]obs{}
+	for _, f := range funcsOf(pkg) {
+		rn := recvNamed(f.Obj)
+		if rn == nil || !strings.HasPrefix(f.Obj.Name(), "BuildFrom") || f.Obj.Name() == "BuildFromLocalReference" {
+			continue
+		}
+		sig := f.Obj.Type().(*types.Signature)
+		// the delegate call: a call of the same method name on something else, last argument = destination
+		inspectCalls(info, f.Decl.Body, func(call *ast.CallExpr, c *types.Func) {
+			if c == nil || c.Name() != f.Obj.Name() || len(call.Args) == 0 {
+				return
+			}
+			last := call.Args[len(call.Args)-1]
+			if !typeIs(info.TypeOf(last), "reflect", "Value") {
+				return
+			}
+			shape := exprStr(last)
+			// normalise: the method's own destination parameter
+			if o := objOf(info, last); o != nil && paramIndex(f.Obj, o) >= 0 && paramIndex(f.Obj, o) == sig.Params().Len()-1 {
+				shape = "<incoming destination>"
+			}
+			byType[rn.Obj().Name()] = append(byType[rn.Obj().Name()], obs{f.Obj.Name(), shape, call})
+		})
+	}
+	nTypes := 0
+	for _, tname := range sortedKeys(byType) {
+		os := byType[tname]
+		if len(os) < 8 {
+			continue // not a wrapper over the whole event set
+		}
+		counts := map[string]int{}
+		for _, o := range os {
+			counts[o.shape]++
+		}
+		// majority shape
+		var shapes []string
+		for s := range counts {
+			shapes = append(shapes, s)
+		}
+		sort.Slice(shapes, func(i, j int) bool {
+			if counts[shapes[i]] != counts[shapes[j]] {
+				return counts[shapes[i]] > counts[shapes[j]]
+			}
+			return shapes[i] < shapes[j]
+		})
+		major := shapes[0]
+		if counts[major]*4 < len(os)*3 {
+			continue // no dominant shape: this type legitimately uses different destinations
+		}
+		nTypes++
+		for _, o := range os {
+			r.Check("C04.wrapper-shape", "builder."+tname+"."+o.method+"|delegate destination", o.pos.Pos(), o.shape == major,
+				fmt.Sprintf("%s.%s hands `%s` to the delegate as the destination; its %d sibling methods hand `%s`: the value is built into the wrong place", tname, o.method, o.shape, counts[major], major))
+		}
+	}
+	r.Floor("C04.wrapper-shape", "wrapper builder types with a dominant destination shape", nTypes, 5)
 }
